@@ -259,21 +259,34 @@ func (r *Result) Cleanup() { os.RemoveAll(r.Dir) }
 
 // Verdict is what the *Trace modules write to verdict.ndjson.
 type Verdict struct {
-	N   int   `json:"n"`
-	Bad []int `json:"bad"`
+	N       int      `json:"n"`
+	Bad     []int    `json:"bad"`
+	Classes []string `json:"classes,omitempty"`
+	Culprits [][]map[string]string `json:"culprits,omitempty"`
 }
 
 // ValidateLines writes lines as trace.ndjson, runs the trace module and
 // returns the 0-based indices of the lines the specification rejects.
 func ValidateLines(scratch, module string, lines []any, extra map[string][]byte) ([]int, *Result, error) {
+	bad, _, res, err := ValidateLinesV(scratch, module, lines, extra)
+	return bad, res, err
+}
+
+// ValidateLinesV is ValidateLines that also returns the full verdict record.
+func ValidateLinesV(scratch, module string, lines []any, extra map[string][]byte) ([]int, *Verdict, *Result, error) {
+	bad, v, res, err := validateLines(scratch, module, lines, extra)
+	return bad, v, res, err
+}
+
+func validateLines(scratch, module string, lines []any, extra map[string][]byte) ([]int, *Verdict, *Result, error) {
 	if len(lines) == 0 {
-		return nil, &Result{OK: true}, nil
+		return nil, &Verdict{}, &Result{OK: true}, nil
 	}
 	var buf bytes.Buffer
 	for _, l := range lines {
 		b, err := json.Marshal(l)
 		if err != nil {
-			return nil, nil, err
+			return nil, nil, nil, err
 		}
 		buf.Write(b)
 		buf.WriteByte('\n')
@@ -284,25 +297,25 @@ func ValidateLines(scratch, module string, lines []any, extra map[string][]byte)
 	}
 	res, err := Run(scratch, Opts{Module: module, Workers: 1, Files: files, Timeout: 10 * time.Minute})
 	if err != nil {
-		return nil, nil, err
+		return nil, nil, nil, err
 	}
 	if !res.OK {
-		return nil, res, fmt.Errorf("trace validation run of %s failed: %s", module, res.Tail(30))
+		return nil, nil, res, fmt.Errorf("trace validation run of %s failed: %s", module, res.Tail(30))
 	}
 	vl, err := res.ReadNDJSON("verdict.ndjson")
 	if err != nil || len(vl) == 0 {
-		return nil, res, fmt.Errorf("no verdict from %s: %v\n%s", module, err, res.Tail(30))
+		return nil, nil, res, fmt.Errorf("no verdict from %s: %v\n%s", module, err, res.Tail(30))
 	}
 	var v Verdict
 	if err := json.Unmarshal(vl[0], &v); err != nil {
-		return nil, res, err
+		return nil, nil, res, err
 	}
 	if v.N != len(lines) {
-		return nil, res, fmt.Errorf("%s consumed %d of %d lines", module, v.N, len(lines))
+		return nil, nil, res, fmt.Errorf("%s consumed %d of %d lines", module, v.N, len(lines))
 	}
 	bad := make([]int, 0, len(v.Bad))
 	for _, i := range v.Bad {
 		bad = append(bad, i-1)
 	}
-	return bad, res, nil
+	return bad, &v, res, nil
 }
